@@ -158,7 +158,7 @@ func loadC13Corpus() {
 
 func TestC13(t *testing.T) {
 	r, e := start(t, "C13",
-		"(a) byte strings built from a dictionary of keywords, operators, quotes, comment markers, control and non-UTF-8 bytes; (b) token soup from the token vocabulary; (c) near misses: 1-2 token deletions, insertions, duplications, replacements and swaps applied to valid programs (the suite's sources, examples, std/*.tsh, generated programs); (d) import graphs over <= 4 files with every kind of edge (self-import, 2- and 3-cycles, missing files, directories, invalid imported files), main path missing or a directory. Each input is transpiled for both targets in a child worker process. Oracle: (script, nil) or (\"\", non-empty error); no panic, no worker death, no run beyond 60 s. Non-trivial = inputs that pass the lexer (they reach parser/transpiler code); distinct by input bytes.",
+		"(0) exhaustively every file of one or two lexemes from a 46-entry vocabulary, with and without a final line break; (a) byte strings built from a dictionary of keywords, operators, quotes, comment markers, control and non-UTF-8 bytes; (b) token soup from the token vocabulary; (c) near misses: 1-2 token deletions, insertions, duplications, replacements and swaps applied to valid programs (the suite's sources, examples, std/*.tsh, generated programs); (d) import graphs over <= 4 files with every kind of edge (self-import, 2- and 3-cycles, missing files, directories, invalid imported files), main path missing or a directory. Each input is transpiled for both targets in a child worker process. Oracle: (script, nil) or (\"\", non-empty error); no panic, no worker death, no run beyond 60 s. Non-trivial = inputs that pass the lexer (they reach parser/transpiler code); distinct by input bytes.",
 		[]string{"a hang is decided by a 20 s watchdog, confirmed once in a fresh worker with 60 s (normal inputs take < 50 ms)", "super-linear slowness on inputs far larger than 2 KiB is not explored"})
 	defer r.Flush()
 	defer c13Pool.Close()
@@ -197,6 +197,37 @@ func TestC13(t *testing.T) {
 				r.Violate(rep.Sig{"kind": kind, "input": c.Note}, c.Note+": "+msg, c)
 			}
 		}
+	}
+
+	// exhaustive: every file made of one or two lexemes of a small vocabulary (look-behind / look-ahead at the very
+	// start and end of a file), with and without a final line break
+	{
+		vocab := []string{"x", "1", "-1", "-", "+", "(", ")", "[", "]", "{", "}", ",", ":", ".", "=", ":=", "==", "!", "&&", "++", "@", "|", "\"", "`", "\"s\"", "/*", "*/", "//", "/", "\\", "\n", " ", "\r", "\x00", "\xff", "func", "if", "for", "import", "return", "case", "var", "nil", "true", "print", "len"}
+		inputs := []string{}
+		for _, a := range vocab {
+			inputs = append(inputs, a)
+			for _, b := range vocab {
+				inputs = append(inputs, a+b, a+" "+b)
+			}
+		}
+		for i, in := range inputs {
+			if !e.Mine(i) {
+				continue
+			}
+			for _, tail := range []string{"", "\n"} {
+				c := totalCase{Kind: "total", Property: "C13", FilesHex: map[string]string{"main.tsh": hexEnc(in + tail)}, Main: "main.tsh", Note: "tiny-input"}
+				r.Eval()
+				r.Class("tiny-input")
+				if kind, msg, _ := checkTotal(c); kind != "" {
+					if kind == "harness" {
+						r.HarnessError("%s", msg)
+						return
+					}
+					r.Violate(rep.Sig{"kind": kind, "input": "tiny"}, fmt.Sprintf("tiny input %q: %s", in+tail, msg), c)
+				}
+			}
+		}
+		r.SetExtra("n_tiny_inputs", 2*len(inputs))
 	}
 
 	gcfg := gen.Cfg{MaxStmts: 12, MaxDepth: 3, ExprDepth: 3, Funcs: true, MaxFuncs: 2, Slices: true, StrOps: true, LoopBudget: 8, IO: true, Panics: true, ErrSpell: true}
